@@ -317,7 +317,7 @@ Edit ==
               fs == Failures(p)
               ok == fs = {}
           IN  /\ IF Emit THEN PrintT(ToJson([cls |-> d.cls, prog |-> p, base |-> prog, ok |-> ok,
-                                             fails |-> fs, n |-> nedits + 1]))
+                                             fails |-> fs, n |-> nedits + 1, d |-> d]))
                  ELSE TRUE
               /\ ok \/ KeepDead
               /\ prog' = p
